@@ -882,6 +882,41 @@ func TestVerifC20(t *testing.T) {
 	}
 	fmt.Fprintf(w, "# c20: exhaustive 3-node configurations %d, tables observed %d\n", total, nTab)
 
+	// ---- (1b) thorough: all directed graphs on 4 nodes, each link absent / live / lost 1 s ago (3^12)
+	if thorough {
+		st4 := []c20Link{{kind: c20Absent}, {kind: c20Live}, {kind: c20Lost, age: 1000}}
+		total4 := 531441
+		stride4 := []int{7919, 104729, 1299709, 15485863}[int(verifSeed())%4] // coprime to 3
+		off4 := r.intn(total4)
+		var in4 *c20Inst
+		n4 := 0
+		for k := 0; k < total4 && c20Hangs < 3; k++ {
+			code := (off4 + k*stride4) % total4
+			cfg := c20EmptyConfig(4)
+			x := code
+			for u := 0; u < 4; u++ {
+				for v := 0; v < 4; v++ {
+					if u != v {
+						cfg.links[u][v] = st4[x%3]
+						x /= 3
+					}
+				}
+			}
+			if in4 == nil || k%6 == 0 {
+				in4 = c20NewInst(core)
+			}
+			if in4.observe(w, cfg, nil) {
+				n4++
+			} else {
+				in4 = nil
+			}
+			if k%16 == 0 {
+				c20LibLines(w, 4, c20StaticArcs(cfg), 0, []int{1, 2, 3})
+			}
+		}
+		fmt.Fprintf(w, "# c20: exhaustive 4-node configurations %d, tables observed %d\n", total4, n4)
+	}
+
 	// ---- (2) random graphs on up to 8 (thorough 12) nodes, chained like above, with stale data
 	maxN, nRand := 8, 1500
 	if thorough {
